@@ -232,6 +232,19 @@ def simulate(shape, op):
             if op != "sizeof":
                 out.append(DV)
             return DV
+        if k == "rc0":
+            # a named member "rc" = RawCopy around a member that build derives by itself with a FALSY result (Default(Byte, 0) given
+            # nothing): what later siblings see under rc.value is that result, in build as in parse
+            if op != "sizeof":
+                out.append(0)
+            return 0
+        if k == "deprc":
+            n = cur.get("rc", MISSING)
+            obs.append({"sid": "dep", "path": "this.rc.value+1", "value": n + 1 if isinstance(n, int) else MISSING})
+            if isinstance(n, int) and op != "sizeof":
+                out.extend(bytes([0xd0 + n + 1]) * (n + 1))
+                return None
+            raise Stop()
         if k == "arrd":
             # a named array "a" of members that build derives by themselves (Default given nothing)
             if op != "sizeof":
@@ -318,6 +331,8 @@ def simulate(shape, op):
                     sc["x"] = v
                 if m[0] == "arrd" and op != "sizeof" and not sizing:
                     sc["a"] = v
+                if m[0] == "rc0" and op != "sizeof" and not sizing:
+                    sc["rc"] = v
                 if m[0] == "rep" and op != "sizeof" and not sizing:
                     sc["r"] = v
             if k == "union" and len(node) > 2 and op == "parse":
@@ -374,6 +389,10 @@ def mk_construct(shape, Spy, log, sidc):
         return C.Rebuild(C.Byte, C.this._y)
     if k == "yu":
         return C.Byte
+    if k == "rc0":
+        return C.RawCopy(C.Default(C.Byte, 0))
+    if k == "deprc":
+        return C.Bytes(C.this.rc.value + 1)
     if k == "arrd":
         return C.Array(shape[1], C.Default(C.Byte, DV))
     if k == "depa":
@@ -402,6 +421,8 @@ def mk_construct(shape, Spy, log, sidc):
                 names["x"] += 1
             elif m[0] == "arrd":
                 nm = "a"
+            elif m[0] == "rc0":
+                nm = "rc"
             elif m[0] in ("rep", "fwdu", "yu"):
                 nm = {"rep": "r", "fwdu": "c", "yu": "_y"}[m[0]]
             else:
@@ -462,6 +483,10 @@ def build_value(shape, key=()):
         return None
     if k == "yu":
         return DV
+    if k == "rc0":
+        return {"value": None}
+    if k == "deprc":
+        return ("dep", "this.rc.value+1")
     if k == "arrd":
         return [None] * shape[1]
     if k == "depa":
@@ -481,7 +506,7 @@ def build_value(shape, key=()):
                 continue                       # derived: not supplied
             if m[0] == "fwdu":
                 continue
-            d["x" if m[0] == "x" else {"arrd": "a", "rep": "r", "yu": "_y"}.get(m[0], "m%d" % i)] = build_value(m, key + (i,))
+            d["x" if m[0] == "x" else {"arrd": "a", "rep": "r", "yu": "_y", "rc0": "rc"}.get(m[0], "m%d" % i)] = build_value(m, key + (i,))
         if k == "focused":
             first = shape[1][0]
             return d["x" if first[0] == "x" else "m0"]
@@ -577,10 +602,50 @@ def outermost_kind(shape):
     return n[0]
 
 
+ENTRY = [0]
+
+
+def enter_parse(d, data, how):
+    """the three parsing entry points create the top-level scope from the same keyword arguments"""
+    import io, os, tempfile
+    if how == 0:
+        return d.parse(data, k=K)
+    if how == 1:
+        return d.parse_stream(io.BytesIO(data), k=K)
+    fd, path = tempfile.mkstemp(prefix="rv-c07-")
+    try:
+        with os.fdopen(fd, "wb") as f:
+            f.write(data)
+        return d.parse_file(path, k=K)
+    finally:
+        os.unlink(path)
+
+
+def enter_build(d, v, how):
+    import io, os, tempfile
+    if how == 0:
+        return d.build(v, k=K)
+    if how == 1:
+        s = io.BytesIO()
+        d.build_stream(v, s, k=K)
+        return s.getvalue()
+    fd, path = tempfile.mkstemp(prefix="rv-c07-")
+    os.close(fd)
+    try:
+        d.build_file(v, path, k=K)
+        with open(path, "rb") as f:
+            return f.read()
+    finally:
+        os.unlink(path)
+
+
 def run_shape(ctx, shape, Spy):
     import construct as C
     if has_multiple_x(shape):
         return
+    from ..common import h64
+    ENTRY[0] = h64(shape) % 3          # (by the shape, so that a replay enters the same way)
+    ctx.count("entry_point_%s" % ["parse/build", "parse_stream/build_stream", "parse_file/build_file"][ENTRY[0] % 3])
     case = {"shape": shape}
     results = {}
     for op in ("parse", "build", "sizeof"):
@@ -605,7 +670,7 @@ def run_shape(ctx, shape, Spy):
     try:
         # greedy repeaters end at end of data: they are only generated where that is the end of the whole input
         with monitors.STEPS(200000):
-            pv = d.parse(data, k=K)
+            pv = enter_parse(d, data, ENTRY[0] % 3)
     except BudgetExceeded:
         ctx.count("shape_exceeded_step_budget")
         return
@@ -622,7 +687,7 @@ def run_shape(ctx, shape, Spy):
             del log[:]
             ctx.ev()
             try:
-                built = d.build(v, k=K)
+                built = enter_build(d, v, ENTRY[0] % 3)
             except Exception as e:
                 ctx.violation("build-fails:%s:%s" % (type(e).__name__, opener_kinds(shape)), "build of %r raised %s: %s" % (v, type(e).__name__, str(e)[:200]), case)
                 return
@@ -723,6 +788,12 @@ def enumerate_small():
             out.append([ok, [["arrd", 2], ["depa", i], ["spy"]]])
             out.append(["struct", [["x"], [ok, [["spy"], ["arrd", 3], ["depa", i], ["dep", "this._.x"]]]]])
             out.append(["array", 2, [ok, [["arrd", 2], ["depa", i]]], False])
+    # a RawCopy around a self-derived member whose built result is falsy, followed by a member sized from rc.value
+    for ok in ("struct", "seq"):
+        out.append([ok, [["rc0"], ["deprc"], ["spy"]]])
+        out.append(["struct", [["x"], [ok, [["spy"], ["rc0"], ["deprc"], ["dep", "this._.x"]]]]])
+        out.append(["array", 2, [ok, [["rc0"], ["deprc"]]], False])
+        out.append(["struct", [["x"], ["tunnel", [ok, [["rc0"], ["deprc"]]]]]])
     # what later siblings see of a repeater, with and without discard; a member rebuilt from a later sibling named _y
     for rk in ("array", "greedy", "until"):
         for discard in (False, True):
